@@ -281,3 +281,52 @@ Ltac abs_lra :=
   end.
 (* finish a leaf whose radicals are gone except the final norm: radicand = 1, components by field *)
 Ltac norm_finish := repeat rad_one; unfold qsc; val_eq; (field [] || field); repeat split; lra.
+
+(* ---- dispatchers: a let-preserving walk through the constructors' SO(3) gates ---------------------------------
+   Goals are put in the form  P (term)  with the outcome as LAST argument of a predicate:
+     is_out r o      :  o = r
+     signed_q w x y z o : o = Val (s*q) for a sign s.
+   so3_walk introduces each leading `let` as a local definition (the goal stays small) and decides each gate
+   `|e| <= c` by showing e = 0 from the oriented unit hypothesis on the unfolded definitions; it stops at the first
+   node that is neither.  locals_out then substitutes the definitions back, for the method tactics. *)
+Definition is_out (r o : outcome R) : Prop := o = r.
+Definition signed_q (w x y z : R) (o : outcome R) : Prop := exists s, is_sign s /\ o = Val (qsc s w x y z).
+Ltac locals_out := repeat match goal with x := _ |- _ => subst x end.
+Ltac so3_walk :=
+  lazymatch goal with
+  | |- ?P (let t := ?v in @?b t) =>
+      let y := fresh "t" in pose (y := v); change (P (b y)); cbv beta; so3_walk
+  | |- ?P (if Rle_dec (Rabs ?e) ?c then ?a else ?b) =>
+      let H := fresh in
+      assert (H : Rabs e <= c) by (replace e with 0 by (locals_out; first [hring | ring]); rewrite Rabs_R0; lra);
+      destruct (Rle_dec (Rabs e) c) as [_|?]; [clear H | contradiction]; so3_walk
+  | |- _ => idtac
+  end.
+(* decide the head gate by linear arithmetic or fail *)
+Ltac head_gate_lra :=
+  lazymatch goal with
+  | |- (if ?g then _ else _) = _ =>
+      first [ destruct g as [?|?]; [ exfalso; lra | ] | destruct g as [?|?]; [ | exfalso; lra ] ]
+  end.
+(* alternate: prune decidable gates, turn innermost norm radicals into 1 *)
+Ltac gates_and_norms := repeat first [ head_gate_lra | rad_one ].
+(* does the condition mention a radical, directly or through a local definition? *)
+Ltac has_sqrt g :=
+  first [ lazymatch g with context [sqrt _] => idtac end
+        | match g with context [?v] => is_var v; let b := eval unfold v in v in lazymatch b with context [sqrt _] => idtac end end ].
+(* walk the whole tree: lets become local definitions, SO(3) gates are decided, every other gate is split;
+   `leaf` runs on each leaf after the local definitions have been substituted back *)
+Ltac full_walk leaf :=
+  lazymatch goal with
+  | |- ?P (let t := ?v in @?b t) =>
+      let y := fresh "t" in pose (y := v); change (P (b y)); cbv beta; full_walk leaf
+  | |- ?P (if Rle_dec (Rabs ?e) ?c then ?a else ?b) =>
+      first [ let H := fresh in
+              assert (H : Rabs e <= c) by (replace e with 0 by (locals_out; first [hring | ring]); rewrite Rabs_R0; lra);
+              destruct (Rle_dec (Rabs e) c) as [_|?]; [clear H | contradiction]
+            | destruct (Rle_dec (Rabs e) c) as [?|?] ]; full_walk leaf
+  | |- ?P (if ?g then ?a else ?b) =>
+      (* a gate on a radical (zero-norm checks of the constructors) is left to the leaf tactic *)
+      tryif has_sqrt g then (locals_out; leaf) else (destruct g as [?|?]; full_walk leaf)
+  | |- _ => locals_out; leaf
+  end.
